@@ -212,3 +212,15 @@ def search(ctx, failed, rnd, deadline):
                 ctx.oracle_failures += sub.oracle_failures
                 if sub.oracle_failures:
                     return
+
+
+def replay(ctx, case):
+    """A replay names a configuration (and possibly one start tree): recompute every row of that configuration and judge it."""
+    ds = DataSet.from_json(case["data"])
+    states = all_canon_trees(case["n"], outliers=case["outliers"])
+    base = {k: v for k, v in case.items() if k not in ("start", "target")}
+    base["group"] = base.get("group", "replay")
+    base["nstates"] = len(states)
+    for f, o in states:
+        check(ctx, dict(base, start=[f, o]))
+    finalize(ctx)
